@@ -912,7 +912,7 @@ namespace Pistache::Async
                 throw Error("Attempt to reject a fulfilled promise");
 
             std::unique_lock<std::mutex> guard(core_->mtx);
-            core_->exc   = std::make_exception_ptr(exc);
+            core_->exc   = toExceptionPtr(std::move(exc));
             core_->state = State::Rejected;
             for (const auto& req : core_->requests)
             {
@@ -927,6 +927,17 @@ namespace Pistache::Async
         Rejection clone() { return Rejection(core_); }
 
     private:
+        // an exception that is forwarded (whenAll / whenAny hand over the
+        // exception_ptr of the rejected input) must stay the exception it is, not
+        // become an exception of type std::exception_ptr
+        static std::exception_ptr toExceptionPtr(std::exception_ptr exc) { return exc; }
+
+        template <typename Exc>
+        static std::exception_ptr toExceptionPtr(Exc exc)
+        {
+            return std::make_exception_ptr(std::move(exc));
+        }
+
         std::shared_ptr<Private::Core> core_;
     };
 
